@@ -26,6 +26,8 @@ pub const FAMILIES: &[(&str, u64)] = &[
     ("deep", 5),
     ("deep-hints", 2),
     ("hostile", 1),
+    ("lazy-soft", 2),
+    ("medium-soft", 2),
 ];
 
 impl Monitor for C05 {
@@ -44,7 +46,9 @@ impl Monitor for C05 {
     }
     fn generate(&self, r: &mut Rng, _tier: Tier, _i: u64) -> SolverCase {
         let (name, cfg) = pick_family(r, FAMILIES);
-        let (u, p) = gener::generate(r, &cfg);
+        // shaped family: a soft requirement whose run learns clauses and is rejected afterwards,
+        // followed by further soft requirements (learnt clauses outlive the rejected attempt)
+        let (name, (u, p)) = if r.chance(1, 10) { ("soft-backjump", gener::soft_backjump(r)) } else if r.chance(1, 6) { ("soft-learn-reject", gener::soft_learn_reject(r)) } else { (name, gener::generate(r, &cfg)) };
         SolverCase { family: name.into(), u, p, runs: standard_runs(r, 1) }
     }
     fn check(&self, c: &SolverCase, ctx: &mut Ctx) {
